@@ -16,8 +16,16 @@ Record config := {
   has_cb : bool;                                           (* nrc78_callback configured *)
   srv_addr : option Z; srv_size : option Z;                (* server_address_format / server_memorysize_format *)
   snap_did : Z; ext_size : option Z;                       (* dtc_snapshot_did_size, extended_data_size (int form) *)
-  algo : Z; algo_prm : Z                                   (* security_algo flavour (Services.v), security_algo_params (-1 = None) *)
+  algo : Z; algo_prm : Z;                                  (* security_algo flavour (Services.v), security_algo_params (-1 = None) *)
+  dids : list (Z * Z);        (* data_identifiers: (did | -1 for 'default', codec length | -1 for read-all-remaining) *)
+  ios : list (Z * (Z * bool * list Z * option Z))   (* input_output: did | -1 -> (codec length, has mask dict, mask values m0.., mask_size) *)
 }.
+
+(* the part of the configuration the response parsers need (kept apart so that their loops do not carry the
+   whole configuration) *)
+Record pcfg := { pc_tol : bool; pc_ign : bool; pc_snap : Z; pc_dids : list (Z * Z) }.
+Definition pc_of (cfg : config) : pcfg :=
+  {| pc_tol := tol_pad cfg; pc_ign := ign_zero cfg; pc_snap := snap_did cfg; pc_dids := dids cfg |}.
 
 Inductive override := OvOff | OvConst (b : bytes) | OvFun (pre post : bytes).
 
